@@ -216,7 +216,33 @@ def system_ops():
         E.arrays["flow_in_system"] = f1
         return [new]
 
+    def to_stock_type(E):
+        """a flow-driven stock converted to a dynamic model: same arrays, same dimensions, and what it then computes is what
+        a freshly built model computes from the same inflow"""
+        from flodym.stocks import SimpleFlowDrivenStock, InflowDrivenDSM
+        from flodym.lifetime_models import FixedLifetime
+
+        w = E.w
+        d = E.tx.dims
+        st = SimpleFlowDrivenStock(dims=d, inflow=E.tx.copy(), outflow=E.ty.copy(), name="conv")
+        st.compute()
+        before = {k: getattr(st, k).values.copy() for k in ("stock", "inflow", "outflow")}
+        new = st.to_stock_type(InflowDrivenDSM, lifetime_model=FixedLifetime(dims=d, mean=E.prm))
+        w.ob("to_stock_type:class", type(new) is InflowDrivenDSM and new.name == "conv" and tuple(new.dims.letters) == tuple(d.letters))
+        for k in before:
+            for idx in np.ndindex(*before[k].shape):
+                w.ob(f"to_stock_type:{k}_kept{list(idx)}", w.same(getattr(new, k).values[idx], before[k][idx]))
+                w.ob(f"to_stock_type:source_{k}_unchanged{list(idx)}", w.same(getattr(st, k).values[idx], before[k][idx]))
+        new.compute()
+        fresh = InflowDrivenDSM(dims=d, inflow=E.tx.copy(), lifetime_model=FixedLifetime(dims=d, mean=E.prm))
+        fresh.compute()
+        for k in ("stock", "outflow"):
+            for idx in np.ndindex(*before[k].shape):
+                w.ob_eq(f"to_stock_type:computes_like_fresh:{k}{list(idx)}", getattr(new, k).values[idx], getattr(fresh, k).values[idx])
+        return [new.stock, new.outflow]
+
     S["stock_from_arrays"] = (stock_from_arrays, False)
+    S["to_stock_type"] = (to_stock_type, False)
     S["system_and_export"] = (system_and_export, False)
     return S
 
